@@ -32,3 +32,11 @@ if not settings.configured:
 import types as _types
 import django.db.backends.utils as _dbu
 _dbu.time = _types.SimpleNamespace(monotonic=lambda: 0.0, time=lambda: 0.0)
+import django.db.backends.base.base as _dbb
+_dbb.time = _types.SimpleNamespace(monotonic=lambda: 0.0, time=lambda: 0.0)
+
+# Open the connections before any analysis starts (a connect inside a traced path is
+# non-deterministic across CrossHair iterations).
+from django.db import connections as _connections
+for _alias in _connections:
+    _connections[_alias].ensure_connection()
